@@ -1,2 +1,3 @@
 From Verif Require Import Lib.Base Gen.Denote Gen.Fixed.
 Definition run (fe : fexpr) (dest_fixed : bool) (n : nat) : V := VZ (stored (to_dest dest_fixed (elab fe)) n).
+Definition run_cmp (op : cmpop) (a b : fexpr) : V := VZ (if cmp_fixed op a b then 1 else 0).
